@@ -9,6 +9,7 @@ ops:  ["rx", line]
       ["flag", node_id, "reboot" | "sleeping", bool]      application sets a public attribute
       ["restore", node_id, {type, version, sleeping, children: {cid: [ctype, desc, {vt: val}]}}]
       ["reenter"]                                          leave and re-enter `async with gateway`
+      ["config", "metric", bool]                           the application changes gateway.config on the live gateway
       ["load", {key: native record, ...}]                  restore through the real Persistence.load (sparse records allowed)
 """
 
@@ -141,6 +142,10 @@ class Lockstep:
                 self.model.flag(op[1], op[2], op[3])
             elif kind == "restore":
                 self.restore(op[1], op[2])
+            elif kind == "config":
+                setattr(self.gateway.config, op[1], op[2])  # the application changes the public Config of a live gateway
+                if op[1] == "metric":
+                    self.model.metric = bool(op[2])
             elif kind == "load":
                 await self.load_file(op[1])
             elif kind == "reenter":
